@@ -2,61 +2,13 @@
   C14 — configured credentials and overrides reach every request.  Property theorems only.
 -/
 import SV.Model.C14
+import SV.Spec.C14
+import SV.Proofs.C14
 
 namespace SV.Props.C14
-open SV.Model.C14
+open SV.Model.C14 SV.Spec.C14 SV.Proofs.C14
 
 /-! ### the merge chain: the user's value wins -/
-
-theorem lookup_set_same (d : Dict) (k : Key) (v : String) : dlookup k (dset d k v) = some v := by
-  induction d with
-  | nil => simp [dset, dlookup]
-  | cons kv r ih =>
-    obtain ⟨k', v'⟩ := kv
-    by_cases h : (k == k') = true
-    · simp [dset, dlookup, h]
-    · simp [dset, dlookup, h, ih]
-
-theorem lookup_set_other (d : Dict) (k k2 : Key) (v : String) (hne : (k2 == k) = false) :
-    dlookup k2 (dset d k v) = dlookup k2 d := by
-  induction d with
-  | nil => simp [dset, dlookup, hne]
-  | cons kv r ih =>
-    obtain ⟨k', v'⟩ := kv
-    by_cases h : (k == k') = true
-    · have hk : k = k' := by simpa using h
-      subst hk
-      simp [dset, dlookup, hne]
-    · simp only [dset, h, dlookup]
-      by_cases h2 : (k2 == k') = true
-      · simp [dlookup, h2]
-      · simp [dlookup, h2, ih]
-
-/-- the value of the last binding of `k` in an update list -/
-def lastIn (k : Key) : Dict → Option String
-  | [] => none
-  | kv :: rest => match lastIn k rest with
-    | some v => some v
-    | none => if k == kv.1 then some kv.2 else none
-
-theorem update_spec (d other : Dict) (k : Key) :
-    dlookup k (dupdate d other) = match lastIn k other with | some v => some v | none => dlookup k d := by
-  unfold dupdate
-  induction other generalizing d with
-  | nil => simp [lastIn]
-  | cons kv rest ih =>
-    simp only [List.foldl_cons, lastIn]
-    rw [ih]
-    cases hl : lastIn k rest with
-    | some v => rfl
-    | none =>
-      simp only
-      by_cases hk : (k == kv.1) = true
-      · have : k = kv.1 := by simpa using hk
-        simp only [hk, if_true]
-        rw [this]; exact lookup_set_same _ _ _
-      · simp only [hk]
-        exact lookup_set_other _ _ _ _ (by simpa using hk)
 
 /-- `d.update(other)`: every key of `other` ends up with the value of its last binding in `other`
     (`add_coverage`, stateful `before_call`: the override is written over the generated container) -/
@@ -70,14 +22,6 @@ theorem update_keeps (d other : Dict) (k : Key) (hno : lastIn k other = none) :
     dlookup k (dupdate d other) = dlookup k d := by
   rw [update_spec, hno]
 
-theorem lastIn_none_of_absent (k : Key) (other : Dict) (h : ∀ kv ∈ other, (k == kv.1) = false) :
-    lastIn k other = none := by
-  induction other with
-  | nil => rfl
-  | cons kv rest ih =>
-    simp only [lastIn, ih (fun x hx => h x (by simp [hx])), h kv (by simp)]
-    simp
-
 theorem explicit_survives_merge (explicit : Dict) (generated : Option Dict) (k : Key)
     (hdisj : ∀ g, generated = some g → ∀ kv ∈ g, (k == kv.1) = false) :
     dlookup k (mergeExplicit explicit generated) = dlookup k explicit := by
@@ -90,74 +34,6 @@ theorem override_wins (container : Dict) (override : Dict) (k : Key) (v : String
   update_wins container override k v h
 
 /-! ### CaseInsensitiveDict -/
-
-theorem lookupCI_setCI_same (d : Dict) (k k2 : Key) (v : String) (h : lower k2 = lower k) :
-    lookupCI k2 (setCI d k v) = some v := by
-  induction d with
-  | nil => simp [setCI, lookupCI, h]
-  | cons kv r ih =>
-    obtain ⟨k', v'⟩ := kv
-    by_cases hk : (lower k == lower k') = true
-    · simp [setCI, lookupCI, hk, h]
-    · have : (lower k2 == lower k') = false := by rw [h]; simpa using hk
-      simp [setCI, lookupCI, hk, this, ih]
-
-theorem lookupCI_setCI_other (d : Dict) (k k2 : Key) (v : String) (hne : lower k2 ≠ lower k) :
-    lookupCI k2 (setCI d k v) = lookupCI k2 d := by
-  induction d with
-  | nil => simp [setCI, lookupCI, hne]
-  | cons kv r ih =>
-    obtain ⟨k', v'⟩ := kv
-    by_cases hk : (lower k == lower k') = true
-    · have e : lower k = lower k' := by simpa using hk
-      have h1 : (lower k2 == lower k') = false := by rw [← e]; simpa using hne
-      have h2 : (lower k2 == lower k) = false := by simpa using hne
-      simp [setCI, lookupCI, hk, h1, h2]
-    · simp only [setCI, hk, lookupCI]
-      by_cases h2 : (lower k2 == lower k') = true
-      · simp [lookupCI, h2]
-      · simp [lookupCI, h2, ih]
-
-def lastInCI (k : Key) : Dict → Option String
-  | [] => none
-  | kv :: rest => match lastInCI k rest with
-    | some v => some v
-    | none => if lower k == lower kv.1 then some kv.2 else none
-
-theorem updateCI_spec (d other : Dict) (k : Key) :
-    lookupCI k (updateCI d other) = match lastInCI k other with | some v => some v | none => lookupCI k d := by
-  unfold updateCI
-  induction other generalizing d with
-  | nil => simp [lastInCI]
-  | cons kv rest ih =>
-    simp only [List.foldl_cons, lastInCI]
-    rw [ih]
-    cases hl : lastInCI k rest with
-    | some v => rfl
-    | none =>
-      simp only
-      by_cases hk : (lower k == lower kv.1) = true
-      · simp only [hk, if_true]
-        exact lookupCI_setCI_same _ _ _ _ (by simpa using hk)
-      · simp only [hk]
-        exact lookupCI_setCI_other _ _ _ _ (by simpa using hk)
-
-theorem lookupCI_congr (d : Dict) (k k2 : Key) (h : lower k2 = lower k) : lookupCI k2 d = lookupCI k d := by
-  induction d with
-  | nil => rfl
-  | cons kv r ih => obtain ⟨k', v'⟩ := kv; simp [lookupCI, h, ih]
-
-theorem lookupCI_setdefault (d : Dict) (k k2 : Key) (v v2 : String) (h : lookupCI k2 d = some v2) :
-    lookupCI k2 (setdefaultCI d k v) = some v2 := by
-  unfold setdefaultCI
-  cases hl : lookupCI k d with
-  | some _ => exact h
-  | none =>
-    simp only
-    by_cases he : lower k2 = lower k
-    · exfalso
-      rw [lookupCI_congr d k k2 he, hl] at h; cases h
-    · rw [lookupCI_setCI_other _ _ _ _ he]; exact h
 
 /-- **`prepare_headers`: every user-configured header is on the request with the user's value**, in whatever
     spelling the case or the user wrote the name, and whatever the case itself carries under that name -/
@@ -481,5 +357,352 @@ example : ∃ s, CReach { interval := 300, threads := [.idle, .idle] } s ∧ s.f
   have r9 := CReach.step _ _ r8 (CStep.acquire _ [.done 42] [] rfl rfl)
   have r10 := CReach.step _ _ r9 (CStep.check2Hit _ [.done 42] [] ⟨42, 300⟩ rfl rfl rfl)
   exact r10
+
+/-! ### parameter overrides: which entries apply (`Override.for_operation`) -/
+
+/-- **`for_operation` hands out exactly the applicable entries**: the name `n` gets the value `v` in location `l`
+    iff the operation declares `n` in `l` and the user configured `n = v` for `l` — a same-named parameter of another
+    location, or of a sibling operation on the same path, plays no role -/
+theorem for_operation_exact (o : Overrides) (op : Op) (l : Loc) (n : Key) (v : String) :
+    dlookup n (forOperation o op l) = some v ↔ Applies o op l n v := by
+  rw [forOperation_lookup]
+  unfold Applies
+  by_cases h : (l, n) ∈ op.params <;> simp [h]
+
+/-- nothing is handed out for a name the operation does not declare in that location -/
+theorem for_operation_only_declared (o : Overrides) (op : Op) (l : Loc) (n : Key) (h : (l, n) ∉ op.params) :
+    dlookup n (forOperation o op l) = none := by
+  rw [forOperation_lookup]; simp [h]
+
+/-- non-vacuity: `k` is declared as a header and as a query parameter; only the `--set-query` entry is configured -/
+example : Applies (fun l => if l = .query then [("k".toList, "Q")] else [])
+    ⟨"/r".toList, "get".toList, [(.headers, "k".toList), (.query, "k".toList)]⟩ .query "k".toList "Q" ∧
+    ¬ Applies (fun l => if l = .query then [("k".toList, "Q")] else [])
+    ⟨"/r".toList, "get".toList, [(.headers, "k".toList), (.query, "k".toList)]⟩ .headers "k".toList "Q" := by decide
+
+/-! ### the stateful site (`before_call`) -/
+
+/-- **stateful `before_call`: every applicable override is on the case with the user's value**, whatever the
+    generators or the link produced for that name (query, cookies, path parameters) -/
+theorem before_call_user_wins (o : Overrides) (op : Op) (case : Containers) (l : Loc) (n : Key) (v : String)
+    (hl : l ≠ .headers) (h : Applies o op l n v) :
+    ∃ c, beforeCall o op case l = some c ∧ dlookup n c = some v := by
+  unfold beforeCall beforeCallWith
+  rw [forOperation_nonempty o op l n v h]
+  exact ⟨_, rfl, containerUpdate_plain_wins l _ _ n v hl (forOperation_lastIn o op l n v h)⟩
+
+/-- the same for headers, read the way the transport reads them (`CaseInsensitiveDict(case.headers)[n]`) -/
+theorem before_call_user_wins_headers (o : Overrides) (op : Op) (case : Containers) (n : Key) (v : String)
+    (h : Applies o op .headers n v) (hc : HeaderConsistent o op n v)
+    (hci : ∀ d, case .headers = some d → CIUnique d) :
+    ∃ c, beforeCall o op case .headers = some c ∧ wireLookup .headers n c = some v := by
+  unfold beforeCall beforeCallWith
+  rw [forOperation_nonempty o op .headers n v h]
+  refine ⟨_, rfl, ?_⟩
+  have hlast := forOperation_lastInCI o op n v h hc
+  have hlook : dlookup n (forOperation o op .headers) = some v := (for_operation_exact o op .headers n v).2 h
+  have plain : wireLookup .headers n (dupdate [] (forOperation o op .headers)) = some v := by
+    unfold wireLookup
+    simp only
+    rw [wire_headers_eq]
+    apply lastInCI_of_consistent
+    · exact dlookup_some_mem _ _ _ (update_wins _ _ _ _ (forOperation_lastIn o op .headers n v h))
+    · intro k' v' hm he
+      rcases mem_dupdate _ _ _ hm with hm | hm
+      · simp at hm
+      · exact hc k' v' (forOperation_mem o op .headers (k', v') hm) he
+  unfold containerUpdate
+  cases hcase : case .headers with
+  | none => exact plain
+  | some d =>
+    simp only
+    split
+    · exact plain
+    · unfold wireLookup
+      simp only
+      rw [wire_headers_eq, lastInCI_eq_lookupCI _ _ (ciunique_updateCI _ _ (hci d hcase)), updateCI_spec, hlast]
+
+/-- **no invention**: a name the operation does not declare in a location keeps whatever the case had there
+    (query, cookies, path parameters) -/
+theorem before_call_no_invention (o : Overrides) (op : Op) (case : Containers) (l : Loc) (n : Key)
+    (hl : l ≠ .headers) (h : (l, n) ∉ op.params) :
+    dlookup n ((beforeCall o op case l).getD []) = dlookup n ((case l).getD []) := by
+  have hnone : lastIn n (forOperation o op l) = none := by
+    cases hx : lastIn n (forOperation o op l) with
+    | none => rfl
+    | some w => exact absurd (forOperation_mem o op l (n, w) (lastIn_some_mem _ _ _ hx)).1 h
+  unfold beforeCall beforeCallWith
+  split
+  · rfl
+  · simp only [Option.getD_some]
+    unfold containerUpdate
+    cases hcase : case l with
+    | none => simp only [Option.getD_none]; exact update_keeps _ _ _ hnone
+    | some d =>
+      simp only [Option.getD_some]
+      split
+      · rename_i he
+        rw [update_keeps _ _ _ hnone]
+        cases d with
+        | nil => rfl
+        | cons _ _ => simp at he
+      · cases l <;> first | exact absurd rfl hl | exact update_keeps _ _ _ hnone
+
+/-- an operation without any applicable entry is left completely alone -/
+theorem before_call_identity (o : Overrides) (op : Op) (case : Containers)
+    (h : ∀ l n, (l, n) ∈ op.params → dlookup n (o l) = none) : beforeCall o op case = case := by
+  funext l
+  unfold beforeCall beforeCallWith
+  have : forOperation o op l = [] := by
+    cases hf : forOperation o op l with
+    | nil => rfl
+    | cons x r =>
+      have hm := forOperation_mem o op l x (by rw [hf]; simp)
+      have := h l x.1 hm.1
+      rw [hm.2] at this; cases this
+  simp [this]
+
+/-! ### the unit-phase sites (`get_strategy_kwargs`, `merge_explicit`, `add_coverage`, `get_parameters_value`) -/
+
+/-- `get_strategy_kwargs` passes every applicable override on — for headers only when no `--header` is configured
+    (code as found) -/
+theorem strategy_kwargs_carries_partial (o : Overrides) (op : Op) (net : Dict) (l : Loc) (n : Key) (v : String)
+    (h : Applies o op l n v) (hside : l ≠ .headers ∨ net = []) :
+    ∃ c, strategyKwargsWith .asFound (forOperation o op) net l = some c ∧ dlookup n c = some v := by
+  have hne := forOperation_nonempty o op l n v h
+  have hlook := (for_operation_exact o op l n v).2 h
+  unfold strategyKwargsWith
+  rcases hside with hl | hnet
+  · cases l <;> first | exact absurd rfl hl | (simp only [hne]; exact ⟨_, rfl, hlook⟩)
+  · subst hnet
+    cases l <;> (simp only [hne, List.isEmpty_nil]; exact ⟨_, rfl, hlook⟩)
+
+/-- FC14a, the code as found: with any `--header` configured the applicable `--set-header` entry is not passed on -/
+theorem strategy_kwargs_carries_full_false :
+    ∃ (o : Overrides) (op : Op) (net : Dict) (n : Key) (v : String), Applies o op .headers n v ∧
+      ∃ c, strategyKwargsWith .asFound (forOperation o op) net .headers = some c ∧ dlookup n c = none :=
+  ⟨fun l => if l = .headers then [("X-Key".toList, "USER")] else [], ⟨"/a".toList, "get".toList, [(.headers, "X-Key".toList)]⟩,
+   [("X-B".toList, "1")], "X-Key".toList, "USER", by decide, _, rfl, by decide⟩
+
+/-- … and the repaired form (`{**headers, **override}`) passes every applicable entry on, in every location -/
+theorem strategy_kwargs_carries_repaired (o : Overrides) (op : Op) (net : Dict) (l : Loc) (n : Key) (v : String)
+    (h : Applies o op l n v) :
+    ∃ c, strategyKwargsWith .repaired (forOperation o op) net l = some c ∧ dlookup n c = some v := by
+  have hne := forOperation_nonempty o op l n v h
+  have hlook := (for_operation_exact o op l n v).2 h
+  unfold strategyKwargsWith
+  cases l <;> try (simp only [hne]; exact ⟨_, rfl, hlook⟩)
+  simp only [hne]
+  split
+  · exact ⟨_, rfl, hlook⟩
+  · exact ⟨_, rfl, update_wins _ _ _ _ (forOperation_lastIn o op .headers n v h)⟩
+
+/-- what the unit phases hand to the generators never contains a name the operation does not declare there
+    (apart from the configured `--header`s, which go to every operation) -/
+theorem strategy_kwargs_no_invention (V : Variant) (o : Overrides) (op : Op) (net : Dict) (l : Loc) (n : Key)
+    (hl : l ≠ .headers) (h : (l, n) ∉ op.params) :
+    dlookup n ((strategyKwargsWith V (forOperation o op) net l).getD []) = none := by
+  have hnone := for_operation_only_declared o op l n h
+  unfold strategyKwargsWith
+  cases l <;> first | exact absurd rfl hl | (simp only []; split <;> simp [dlookup, hnone])
+
+/-- **every phase**: a request of the examples, coverage, fuzzing or stateful phase for an operation carries every
+    applicable `--set-query`, `--set-cookie`, `--set-path` entry with the user's value, whatever the schema examples (`d.2`)
+    and the generated / link-derived data (`d.1`) hold under that name.  (`hgen`: the generators were asked to
+    leave explicitly given names out — `get_parameters_strategy(…, exclude=…)`.) -/
+theorem every_phase_carries_override (V : Variant) (ph : Phase) (o : Overrides) (op : Op) (net : Dict)
+    (d : Containers × Containers) (l : Loc) (n : Key) (v : String) (hl : l ≠ .headers) (h : Applies o op l n v)
+    (hgen : ph = .fuzzing ∨ ph = .examples → ∀ g, d.1 l = some g → ∀ kv ∈ g, (n == kv.1) = false) :
+    ∃ c, phaseContainers V ph net (forOperation o op) d l = some c ∧ dlookup n c = some v := by
+  have hne := forOperation_nonempty o op l n v h
+  have hlook := (for_operation_exact o op l n v).2 h
+  have hlast := forOperation_lastIn o op l n v h
+  have hkw : strategyKwargsWith V (forOperation o op) net l = some (forOperation o op l) := by
+    unfold strategyKwargsWith
+    cases l <;> first | exact absurd rfl hl | simp only [hne, Bool.false_eq_true, if_false]
+  cases ph with
+  | stateful => exact before_call_user_wins o op d.1 l n v hl h
+  | coverage =>
+    simp only [phaseContainers, coverageWith, hkw]
+    cases d.1 l with
+    | none => exact ⟨_, rfl, hlook⟩
+    | some c => cases l <;> first | exact absurd rfl hl | exact ⟨_, rfl, update_wins _ _ _ _ hlast⟩
+  | fuzzing =>
+    simp only [phaseContainers, explicitMerge, hkw, hne, Bool.false_eq_true, if_false]
+    refine ⟨_, rfl, ?_⟩
+    rw [explicit_survives_merge _ _ _ (hgen (Or.inl rfl))]
+    exact hlook
+  | examples =>
+    simp only [phaseContainers, explicitMerge, examplesMergeWith, hkw]
+    cases d.2 l with
+    | none =>
+      simp only [hne, Bool.false_eq_true, if_false]
+      refine ⟨_, rfl, ?_⟩
+      rw [explicit_survives_merge _ _ _ (hgen (Or.inr rfl))]
+      exact hlook
+    | some e =>
+      have hw : dlookup n (dupdate e (forOperation o op l)) = some v := update_wins _ _ _ _ hlast
+      have hne2 : (dupdate e (forOperation o op l)).isEmpty = false := by
+        cases hx : dupdate e (forOperation o op l) with
+        | nil => rw [hx] at hw; simp [dlookup] at hw
+        | cons _ _ => rfl
+      simp only [hne2, Bool.false_eq_true, if_false]
+      refine ⟨_, rfl, ?_⟩
+      rw [explicit_survives_merge _ _ _ (hgen (Or.inr rfl))]
+      exact hw
+
+/-! ### sequences of requests: history independence -/
+
+/-- **history independence (code as found, every site)**: over every sequence of prepared requests, what the site
+    does for the k-th request depends only on the configuration and that request's own operation and data — never on
+    the operations prepared before it -/
+theorem site_history_independent {K α β : Type} [DecidableEq K] (o : Overrides) (f : Overrides → α → β)
+    (c : List (K × Overrides)) (steps : List (Op × α)) :
+    siteRun (.perCall : Resolver K) o f c steps = steps.map fun s => f (forOperation o s.1) s.2 := by
+  induction steps generalizing c with
+  | nil => rfl
+  | cons s rest ih =>
+    obtain ⟨op, a⟩ := s
+    simp only [siteRun, resolve, List.map_cons]
+    rw [ih]
+
+/-- **"resolve once" rewrites**: a site that memoises `for_operation` under a key that determines the applicable
+    entries (the operation itself, its label within one document, …) behaves like the per-call code on every
+    sequence of requests -/
+theorem site_memo_sound {K α β : Type} [DecidableEq K] (o : Overrides) (S : Op → Prop) (key : Op → K)
+    (hk : KeySound o S key) (f : Overrides → α → β) (steps : List (Op × α)) (hS : ∀ s ∈ steps, S s.1) :
+    siteRun (.memo key) o f [] steps = steps.map fun s => f (forOperation o s.1) s.2 := by
+  suffices H : ∀ (c : List (K × Overrides)),
+      (∀ k a, memoGet k c = some a → ∀ op', S op' → key op' = k → a = forOperation o op') →
+      siteRun (.memo key) o f c steps = steps.map fun s => f (forOperation o s.1) s.2 from
+    H [] (by intro k a hm; simp [memoGet] at hm)
+  induction steps with
+  | nil => intro c _; rfl
+  | cons s rest ih =>
+    intro c hc
+    obtain ⟨op, a⟩ := s
+    have hstep := memoGet_cons_ok o S key hk c op (hS (op, a) (by simp)) hc
+    simp only [siteRun, List.map_cons]
+    rw [hstep.1, ih (fun s hs => hS s (by simp [hs])) _ hstep.2]
+
+/-- … and only then: a key that identifies two operations with different applicable entries changes what some
+    sequence of requests gets -/
+theorem site_memo_sound_iff {K : Type} [DecidableEq K] (o : Overrides) (S : Op → Prop) (key : Op → K) :
+    (∀ steps : List (Op × Unit), (∀ s ∈ steps, S s.1) →
+      siteRun (.memo key) o (fun a _ => a) [] steps = steps.map fun s => forOperation o s.1) ↔ KeySound o S key := by
+  constructor
+  · intro h op op' hS hS' hkey
+    have := h [(op, ()), (op', ())] (by intro s hs; simp at hs; rcases hs with rfl | rfl <;> assumption)
+    simp only [siteRun, resolve, memoGet, hkey, if_true, List.map_cons, List.map_nil, List.cons.injEq, and_true,
+      true_and] at this
+    exact this
+  · intro hk steps hS
+    exact site_memo_sound o S key hk _ steps hS
+
+/-- keyed by the operation itself a memo table is always sound -/
+theorem memo_by_operation_sound (o : Overrides) : KeySound o (fun _ => True) (fun op => op) := by
+  intro op op' _ _ h; exact congrArg (forOperation o) h
+
+/-- **stateful phase, every sequence of steps**: the k-th request carries every override that applies to its own
+    operation, whichever operations (siblings on the same path template included) were called before it -/
+theorem stateful_every_request_carries_override (o : Overrides) (steps : List (Op × Containers)) (k : Nat)
+    (op : Op) (case : Containers) (hk : steps[k]? = some (op, case)) (l : Loc) (n : Key) (v : String)
+    (hl : l ≠ .headers) (h : Applies o op l n v) :
+    ∃ r c, (statefulRun (.perCall : Resolver Unit) o steps)[k]? = some r ∧ r l = some c ∧ dlookup n c = some v := by
+  unfold statefulRun
+  rw [site_history_independent]
+  obtain ⟨c, hc1, hc2⟩ := before_call_user_wins o op case l n v hl h
+  refine ⟨beforeCall o op case, c, ?_, hc1, hc2⟩
+  simp [hk, beforeCall]
+
+/-- … and a request for an operation that does not declare the name gets nothing invented, whatever ran before -/
+theorem stateful_no_invention (o : Overrides) (steps : List (Op × Containers)) (k : Nat)
+    (op : Op) (case : Containers) (hk : steps[k]? = some (op, case)) (l : Loc) (n : Key)
+    (hl : l ≠ .headers) (h : (l, n) ∉ op.params) :
+    ∃ r, (statefulRun (.perCall : Resolver Unit) o steps)[k]? = some r ∧
+      dlookup n ((r l).getD []) = dlookup n ((case l).getD []) := by
+  unfold statefulRun
+  rw [site_history_independent]
+  exact ⟨beforeCall o op case, by simp [hk, beforeCall], before_call_no_invention o op case l n hl h⟩
+
+/-- **the seeded class: a memo table keyed by the path template is not history independent.**  `PATCH /users/{id}`
+    (does not declare `api_key`) runs first; the `GET` on the same path that declares it then goes out without the
+    user's `--set-query api_key=…` -/
+theorem memo_by_path_loses_override :
+    ∃ (o : Overrides) (steps : List (Op × Containers)) (k : Nat) (op : Op) (case : Containers) (n : Key) (v : String),
+      steps[k]? = some (op, case) ∧ Applies o op .query n v ∧
+      ((statefulRun (.memo Op.path) o steps)[k]?.bind fun r => (r .query).bind (dlookup n)) = none :=
+  ⟨fun l => if l = .query then [("api_key".toList, "SECRET")] else [],
+   [(⟨"/users/{id}".toList, "patch".toList, [(.path, "id".toList)]⟩, fun _ => none),
+    (⟨"/users/{id}".toList, "get".toList, [(.path, "id".toList), (.query, "api_key".toList)]⟩, fun _ => none)],
+   1, ⟨"/users/{id}".toList, "get".toList, [(.path, "id".toList), (.query, "api_key".toList)]⟩, fun _ => none,
+   "api_key".toList, "SECRET", rfl, by decide, by decide⟩
+
+/-- … and in the other order it *invents* nothing but leaks: the `GET` runs first, the `PATCH` that does not declare
+    `api_key` is then sent with it -/
+theorem memo_by_path_invents_override :
+    ∃ (o : Overrides) (steps : List (Op × Containers)) (k : Nat) (op : Op) (case : Containers) (n : Key) (v : String),
+      steps[k]? = some (op, case) ∧ (Loc.query, n) ∉ op.params ∧ (case .query).bind (dlookup n) = none ∧
+      ((statefulRun (.memo Op.path) o steps)[k]?.bind fun r => (r .query).bind (dlookup n)) = some v :=
+  ⟨fun l => if l = .query then [("api_key".toList, "SECRET")] else [],
+   [(⟨"/users/{id}".toList, "get".toList, [(.path, "id".toList), (.query, "api_key".toList)]⟩, fun _ => none),
+    (⟨"/users/{id}".toList, "patch".toList, [(.path, "id".toList)]⟩, fun _ => none)],
+   1, ⟨"/users/{id}".toList, "patch".toList, [(.path, "id".toList)]⟩, fun _ => none,
+   "api_key".toList, "SECRET", rfl, by decide, rfl, by decide⟩
+
+/-- non-vacuity of the sequence theorems: the same two steps under the per-call code -/
+example : ((statefulRun (.perCall : Resolver Unit) (fun l => if l = .query then [("api_key".toList, "SECRET")] else [])
+    [(⟨"/users/{id}".toList, "patch".toList, [(.path, "id".toList)]⟩, fun _ => none),
+     (⟨"/users/{id}".toList, "get".toList, [(.path, "id".toList), (.query, "api_key".toList)]⟩, fun _ => none)])[1]?.bind
+      fun r => (r .query).bind (dlookup "api_key".toList)) = some "SECRET" := by decide
+
+/-! ### non-vacuity of the hypotheses used above -/
+
+/-- `HeaderConsistent` / `CIUnique` are satisfiable together with `Applies`: one `--set-header`, a generated header of
+    the same name in another spelling -/
+example :
+    let o : Overrides := fun l => if l = .headers then [("X-Key".toList, "USER")] else []
+    let op : Op := ⟨"/a".toList, "get".toList, [(.headers, "X-Key".toList)]⟩
+    let case : Containers := fun l => if l = .headers then some [("x-key".toList, "generated")] else none
+    Applies o op .headers "X-Key".toList "USER" ∧ HeaderConsistent o op "X-Key".toList "USER" ∧
+    (∀ d, case .headers = some d → CIUnique d) ∧
+    wireLookupO .headers "X-KEY".toList (beforeCall o op case .headers) = some "USER" := by
+  refine ⟨by decide, ?_, ?_, by decide⟩
+  · intro n' v' h _
+    have h2 := h.2
+    simp only [if_true, dlookup] at h2
+    split at h2
+    · simpa using h2.symm
+    · cases h2
+  · intro d hd
+    simp only [if_true, Option.some.injEq] at hd
+    subst hd
+    simp [CIUnique]
+
+/-- the hypotheses of `every_phase_carries_override` are satisfiable in the two phases that need `hgen` -/
+example (ph : Phase) :
+    let o : Overrides := fun l => if l = .query then [("api_key".toList, "USER")] else []
+    let op : Op := ⟨"/a".toList, "get".toList, [(.query, "api_key".toList), (.query, "page".toList)]⟩
+    let d : Containers × Containers := (fun l => if l = .query then some [("page".toList, "1")] else none,
+                                        fun l => if l = .query then some [("api_key".toList, "YOUR_API_KEY")] else none)
+    ∃ c, phaseContainers .asFound ph [("X-B".toList, "1")] (forOperation o op) d .query = some c ∧
+      dlookup "api_key".toList c = some "USER" := by
+  intro o op d
+  apply every_phase_carries_override .asFound ph o op _ d .query "api_key".toList "USER" (by decide) (by decide)
+  intro _ g hg kv hkv
+  simp only [d, if_true, Option.some.injEq] at hg
+  subst hg
+  simp only [List.mem_singleton] at hkv
+  subst hkv
+  decide
+
+/-- `KeySound` for a key coarser than the operation: within a document whose operations are identified by
+    (path, method), the label is a sound key; the bare path is not (`memo_by_path_loses_override`) -/
+example :
+    let a : Op := ⟨"/u/{id}".toList, "get".toList, [(.query, "k".toList)]⟩
+    let b : Op := ⟨"/u/{id}".toList, "patch".toList, []⟩
+    KeySound (fun _ => [("k".toList, "v")]) (fun op => op = a ∨ op = b) (fun op => (op.path, op.method)) := by
+  intro a b op op' h h' hk
+  rcases h with rfl | rfl <;> rcases h' with rfl | rfl <;> first | rfl | (exact absurd hk (by decide))
 
 end SV.Props.C14
